@@ -7,7 +7,8 @@ import contracts.filtered as FL
 
 F = FL.FILE
 F_POT = 'atsim/potentials/tools/potable/__init__.py'
-FUNCTIONS = [(F, 'FilteredConfigParser._check_tuple')]
+FUNCTIONS = [(F, 'FilteredConfigParser._check_tuple')] + [(F, 'FilteredConfigParser.' + v) for v in ('pair', 'eam_embed', 'eam_density', 'eam_density_fs')] + [(F, 'FilteredConfigParser.__init__')]
+SPECSEQS = [FL.filt_pairs, FL.filt_single]
 
 FILTERED_VIEWS = {'pair': "filtered = [p for p in self.__wrapped__.pair if self._check_tuple(p.species)]",
                   'eam_embed': "filtered = [p for p in self.__wrapped__.eam_embed if self._check_tuple((p.species,))]",
@@ -19,8 +20,6 @@ ALLOWED_READS = set(FILTERED_VIEWS) | {'tabulation', 'species', 'potential_form'
 def lemmas():
     out = []
     S = B.source_shape
-    for view, src in FILTERED_VIEWS.items():
-        out.append(S('C13', F, 'FilteredConfigParser.' + view, 'order-preserving-filter-of-the-wrapped-list', [src, 'return filtered']))
     # frame: under wrapt's contract (A6) an attribute whose name does not start with _self_ is stored on the WRAPPED parser and so
     # shared by every view: __init__ may only assign _self_ attributes
     stores = scan.attribute_stores_on_self(F, 'FilteredConfigParser')
@@ -34,9 +33,6 @@ def lemmas():
         o = Obligation('C13/lemma/' + name, hyps, goal, kind='lemma', function='props/C13.py', carries_property=True); o.instantiate_int_foralls = True; out.append(o)
     L('exclude-nothing-keeps-everything', [FL.xflag(s), z3.Length(FL.slist(s)) == 0], FL.keeps(s, tup))
     L('include-nothing-removes-every-entry-that-mentions-a-species', [z3.Not(FL.xflag(s)), z3.Length(FL.slist(s)) == 0, z3.Length(tup) >= 1], z3.Not(FL.keeps(s, tup)))
-    out.append(S('C13', F, 'FilteredConfigParser.__init__', 'exclude-and-include-modes',
-                 ['if exclude or (exclude is not None and include is None):', 'self._self_species_list = exclude', 'self._self_exclude_flag = True',
-                  'self._self_species_list = include', 'self._self_exclude_flag = False']))
     # read set of the pipeline on its parser argument
     files = [f for f in scan.package_files('atsim/potentials/config') if not f.endswith('_config_parser.py') and not f.endswith('_filtered_config_parser.py')] + \
             ['atsim/potentials/tools/potable/_actions.py', 'atsim/potentials/tools/potable/_query_actions.py']
@@ -49,6 +45,13 @@ def lemmas():
     return out
 
 MUTANTS = [
+    (F, 'FilteredConfigParser.__init__', "elif include is None:", "elif not include:", 'post/include-mode'),
+    (F, 'FilteredConfigParser.__init__', "self._self_exclude_flag = False", "self._self_exclude_flag = True", 'post/include-mode'),
+    (F, 'FilteredConfigParser.__init__', "if exclude or (exclude is not None and include is None):", "if exclude is not None:", 'post/include-mode'),
+    (F, 'FilteredConfigParser.pair', "self._check_tuple(p.species)", "not self._check_tuple(p.species)", 'comprehension'),
+    (F, 'FilteredConfigParser.eam_density_fs', "self.__wrapped__.eam_density_fs", "self.__wrapped__.pair", 'post'),
+    (F, 'FilteredConfigParser.eam_embed', "self._check_tuple((p.species,))", "self._check_tuple(())", 'comprehension'),
+    (F, 'FilteredConfigParser.eam_density', "return filtered", "return filtered[1:]", 'post'),
     (F, 'FilteredConfigParser._check_tuple', "if self._self_exclude_flag and v_in:", "if self._self_exclude_flag and (not v_in):", 'post'),
     (F, 'FilteredConfigParser._check_tuple', "return True", "return False", 'post'),
 ]
